@@ -1189,6 +1189,10 @@ func (w *c13World) plan(op []string) (*c13Plan, error) {
 	}
 	switch op[4] {
 	case "plain", "cont", "gz", "salt", "saltgz":
+	case "wrong", "null":
+		if inner != nil {
+			return nil, fmt.Errorf("bad shape token") // the wrappers assert nothing (known finding: they return tl.Object)
+		}
 	default:
 		return nil, fmt.Errorf("bad shape token")
 	}
@@ -1347,6 +1351,18 @@ func c13Exec(op []string) string {
 		}
 	}
 	payload := pl.payload
+	if shape == "wrong" || shape == "null" {
+		// D32: a well-formed answer of ANOTHER type than the method declares — `null`, or boolTrue (pong for a method that
+		// declares Bool). "An unexpected constructor" is among the messages C16 names: the call must return an error;
+		// until the repair the generated method panicked in the caller's goroutine (the process of the application ends)
+		payload = c13U32(0x56730bcc)
+		if shape == "wrong" {
+			payload = c13U32(0x997275b5)
+			if pl.cm.def.res == "Bool" {
+				payload = bytes.Join([][]byte{c13U32(0x347773c5), c13U64(f.mid), c13U64(7)}, nil)
+			}
+		}
+	}
 	if shape == "gz" || shape == "saltgz" {
 		payload = c13Gzip(payload)
 	}
@@ -1376,6 +1392,15 @@ func c13Exec(op []string) string {
 	}
 	if len(r.out) != 2 {
 		return "harness:method-shape"
+	}
+	if shape == "wrong" || shape == "null" {
+		if r.out[1].IsNil() {
+			return "returned-a-value-for-an-answer-of-another-type value=" + c13Short(c13Dump(r.out[0]))
+		}
+		if !r.out[0].IsZero() {
+			return "error-together-with-a-value value=" + c13Short(c13Dump(r.out[0]))
+		}
+		return c13OK(op)
 	}
 	if !r.out[1].IsNil() {
 		return "error(" + c13San(r.out[1].Interface().(error).Error()) + ") stage=answer-delivered"
@@ -1619,7 +1644,9 @@ func c13Judge(op []string, out string) string {
 		}
 		how := map[string]string{"plain": "as a plain rpc_result", "cont": "inside a msg_container", "gz": "gzip_packed",
 			"salt":   "after the first copy of the request was rejected with bad_server_salt",
-			"saltgz": "gzip_packed, after the first copy of the request was rejected with bad_server_salt"}[op[4]]
+			"saltgz": "gzip_packed, after the first copy of the request was rejected with bad_server_salt",
+			"wrong":  "- replaced by a well-formed value of ANOTHER type (boolTrue; pong for a Bool method): the call must return an error",
+			"null":   "- replaced by null#56730bcc: the call must return an error"}[op[4]]
 		args := map[string]string{"z": "zero-valued", "p": "populated"}[op[2]]
 		what += fmt.Sprintf(" (%s arguments; answer: %s, delivered %s)", args, size, how)
 	}
@@ -1702,6 +1729,11 @@ func c13Gen(g *G) {
 		return t
 	}
 	shapes := []string{"cont", "gz", "salt", "saltgz"}
+	// (0) D32: every generated method answered with a well-formed value of another type, and with null: an error, no panic
+	for _, n := range gen {
+		emit(n, "z", small(n), "wrong", kind(n), "answer-of-another-type")
+		emit(n, "z", small(n), "null", kind(n), "answer-of-another-type")
+	}
 	// (1) every method once with zero arguments, answered plainly; once with populated arguments and the
 	// answer delivered in one of the other ways
 	for _, n := range gen {
